@@ -136,7 +136,7 @@ impl lexer::OperationName for OperationName {
             "sta" | "STA" => Some(Self::Sta),
             "stx" | "STX" => Some(Self::Stx),
             "sty" | "STY" => Some(Self::Sty),
-            "tax" | "TAA" => Some(Self::Tax),
+            "tax" | "TAX" => Some(Self::Tax),
             "tay" | "TAY" => Some(Self::Tay),
             "tsx" | "TSX" => Some(Self::Tsx),
             "txa" | "TXA" => Some(Self::Txa),
